@@ -17,6 +17,8 @@ import (
 	"html"
 	"io"
 	"log"
+	"os"
+	"runtime/pprof"
 	"sort"
 	"strings"
 	"time"
@@ -1124,6 +1126,16 @@ func advEval(idx int64, param string) (*explore.Result, *failures) {
 
 func main() {
 	log.SetOutput(io.Discard)
+	if os.Getenv("C20_BENCH") != "" {
+		f, _ := os.Create("/dev/shm/c20.prof")
+		_ = pprof.StartCPUProfile(f)
+		t0 := time.Now()
+		r, _ := wideEval(1, "quick")
+		pprof.StopCPUProfile()
+		f.Close()
+		fmt.Println(time.Since(t0), r.Evals)
+		return
+	}
 	withAspects("c20-short", shortTotal(alphaShort), shortEval(alphaShort))
 	withAspects("c20-replacement", shortTotal(alphaRepl), shortEval(alphaRepl))
 	withAspects("c20-long", longTotal, longEval)
